@@ -179,7 +179,14 @@ async def run_batch(cases: List[dict], limiter_wait: float = 0.0) -> List[dict]:
                     t_call = time.time()
                     err = ""
                     try:
-                        await fn()
+                        if case.get("burst"):
+                            # several requests of one entry point in flight at once (same millisecond, same process)
+                            res = await asyncio.gather(*[fn() for _ in range(int(case["burst"]))], return_exceptions=True)
+                            bad = [r for r in res if isinstance(r, BaseException)]
+                            if bad:
+                                raise bad[0]
+                        else:
+                            await fn()
                     except Exception as e:  # noqa: BLE001
                         err = f"{type(e).__name__}: {e}"
                     srv.drop_next = 0
